@@ -44,6 +44,9 @@ def oracle_boltzmann(args):
     keys = _keys(samples)
     if len(set(keys)) != len(keys):
         problems.append("seed sequences not distinct: %r" % (keys,))
+    again = list(g(ns))                      # a second batch from the SAME generator object
+    if len(set(keys + _keys(again))) != len(keys) + len(again):
+        problems.append("a second call of the same generator hands out seed sequences of the first: %r then %r" % (keys[:3], _keys(again)[:3]))
     g2 = mudslide.TrajGenBoltzmann(pos, mass_in, T, 0, scale=scale, seed=args["seed"], momentum_seed=args["mseed"])
     more = list(g2(ns + 3))
     if _keys(more)[:ns] != keys or any(not np.array_equal(a[1], b[1]) for a, b in zip(samples, more)):
@@ -70,6 +73,9 @@ def oracle_const_normal(args):
         problems.append("const generator: %d samples, not all identical" % len(s))
     if len(set(_keys(s))) != len(s):
         problems.append("const generator: seed sequences not distinct")
+    s_again = list(g(ns))
+    if len(set(_keys(s) + _keys(s_again))) != len(s) + len(s_again):
+        problems.append("const generator: a second call hands out the seed sequences of the first again")
     sigma = np.array(args["sigma"])
     g = mudslide.TrajGenNormal(x0, k0, 0, sigma, seed=args["seed"], seed_traj=args["tseed"])
     s = list(g(ns))
@@ -94,6 +100,9 @@ def oracle_const_normal(args):
                 problems.append("negative momentum yielded")
     if len(set(_keys(s))) != len(s):
         problems.append("normal generator: seed sequences not distinct")
+    s_again = list(g(ns))
+    if len(set(_keys(s) + _keys(s_again))) != len(s) + len(s_again):
+        problems.append("normal generator: a second call hands out the seed sequences of the first again")
     return not problems, {"yielded": len(s), "problems": problems[:3]}, {"expected": len(want)}, "; ".join(problems[:2]) or "ok"
 
 
